@@ -760,6 +760,8 @@ class Gen:
     def op_validate(self, world):
         rng = self.rng
         variant = rng.choice(['errors', 'errors', 'raise', 'report_path', 'report_path', 'report_obj', 'report_obj'])
+        if self.kind == 'msg' and rng.random() < 0.1:
+            return {'k': 'validate', 'variant': 'force_parse', 'p': [], 'find_groups': rng.random() < 0.5}
         op = {'k': 'validate', 'variant': variant, 'p': []}
         if variant.startswith('report'):
             op['form'] = rng.choice(['errors', 'errors', 'raise'])
